@@ -407,6 +407,15 @@ func init() {
 			c.Res.Count("race", "setreadonly-close-clean")
 		}
 		c.Res.Eval("setreadonly-close", true)
+		// scenario F: Close during a Commit that retries a failing manifest write, a compaction waiting for compCommitLk
+		for i := 0; i < c.Scale(3, 30) && !c.Hung; i++ {
+			seed := c.R.Fork().U64()
+			if sig, msg := runC09CommitCloseRace(c, seed); sig != "" {
+				c.Res.Violate(sig, msg, map[string]interface{}{"scenario": "close during commit retry", "seed": seed})
+				c.Hung = true
+			}
+			c.Res.Eval(fmt.Sprintf("commit-close/%d", seed), true)
+		}
 		// scenario D: lock competitors waiting for a failing compaction at the pause trigger
 		for i := 0; i < c.Scale(6, 60) && !c.Hung; i++ {
 			cfg := c09PauseCfg{Seed: c.R.Fork().U64(), Pause: 2 + i%3, Big: i%2 == 1}
